@@ -540,3 +540,161 @@ class ReorderIntegrate(SubCheck):
 
 
 SUBCHECKS["reorder_integrate"] = ReorderIntegrate()
+
+
+# =====================================================================================================================
+# phase_block: the orchestration of phase_single_block (clustering -> threading -> recursive sub-instances -> integration)
+# =====================================================================================================================
+class PhaseBlock(SubCheck):
+    """phase_single_block and the recursive solve_polyphase_instance call for collapsed clusters, with the heuristic stages
+    replaced by their contracts: run_threading returns haplotypes that carry the given genotype at every position when
+    genotypes are trusted (sub-check `force` establishes that for force_genotypes) and arbitrary alleles otherwise;
+    find_subinstances returns a solver-chosen collapsed cluster; run_reordering is the identity here (its integration step
+    is sub-check reorder_integrate).  Asserted: with trusted genotypes the block result carries the input genotype at every
+    position - also at the positions that were re-solved in a sub-instance."""
+
+    name = "phase_block"
+    encoded = ["whatshap.polyphase.algorithm.phase_single_block (both recursion levels)", "solve_polyphase_instance (sequential branch)", "aggregate_results", "whatshap.polyphase.reorder.integrate_sub_results", "find_breakpoints"]
+    sources = ["whatshap/polyphase/algorithm.py", "whatshap/polyphase/reorder.py", "whatshap/polyphase/__init__.py"]
+    stubs = ["scoreReadset / ClusterEditingSolver: one cluster holding all reads", "run_threading: contract stub (see above; the alleles are solver-chosen within the contract)", "find_subinstances: solver-chosen collapsed cluster (2 of the haplotypes, a subset of the positions) at the top level, none below",
+             "run_reordering: identity", "compute_block_starts: one block", "AlleleMatrix: position maps"]
+    assumptions = ["genotypes trusted at the top level (param.distrust_genotypes False)", "run_threading honours its distrust_genotypes argument as force_genotypes does"]
+    required_cover = ["sub-instance solved", "sub-instance result differs from the threaded haplotypes", "no sub-instance"]
+
+    def shapes(self, tier):
+        out = [dict(ploidy=3, npos=2), dict(ploidy=4, npos=2)]
+        if tier != "quick":
+            out += [dict(ploidy=3, npos=3), dict(ploidy=4, npos=3)]
+        return out
+
+    def bounds(self, tier):
+        return "ploidy 3-4, 2 (thorough: 3) positions, biallelic genotypes with solver-chosen dosage, one optional collapsed cluster of 2 haplotypes over >= 2 positions; alleles returned by the threading stub solver-chosen within its contract"
+
+    def setup(self):
+        from vf import build
+        from vf.models import core_model
+
+        build.prepare_repo()
+        import whatshap.align, whatshap._variants, whatshap.readselect, whatshap.priorityqueue, whatshap.polyphase.solver  # noqa: E401
+        import whatshap.polyphase.algorithm as r_alg
+        import whatshap.polyphase as r_pp
+
+        ov = {"whatshap.core": core_model, "whatshap.polyphase.solver": sys.modules["whatshap.polyphase.solver"]}
+        for n in ("align", "_variants", "readselect", "priorityqueue"):
+            ov["whatshap." + n] = sys.modules["whatshap." + n]
+        w = SymWorld(overrides=ov)
+        self._sym = (w.load("whatshap.polyphase.algorithm"), w.load("whatshap.polyphase"))
+        self._real = (r_alg, r_pp)
+
+    def sym_impl(self):
+        return self._sym
+
+    def real_impl(self):
+        return self._real
+
+    def harness(self, e, shape, impl):
+        alg, pp = impl
+        P, N = shape["ploidy"], shape["npos"]
+        dosage = [e.choice("dosage_%d" % p, list(range(1, P))) for p in range(N)]  # number of 1-alleles, heterozygous
+        genotypes = [{0: P - d, 1: d} for d in dosage]
+        use_sub = bool(e.bit("collapsed_cluster"))
+        e.cover("sub-instance solved" if use_sub else "no sub-instance")
+        level = [0]
+        calls = []
+
+        class Matrix:
+            def __init__(s, positions):
+                s.pos = list(positions)
+
+            def __len__(s):
+                return 4
+
+            def getNumPositions(s):
+                return len(s.pos)
+
+            def getPositions(s):
+                return list(s.pos)
+
+            def globalToLocal(s, g):
+                return s.pos.index(g)
+
+            def localToGlobal(s, l):
+                return s.pos[l]
+
+            def getGlobalId(s, r):
+                return r
+
+            def extractInterval(s, a, b):
+                return Matrix(s.pos[a:b])
+
+        def conforming(tag, geno, ploidy):
+            """haplotypes (list per haplotype) carrying `geno` at every position: a solver-chosen arrangement"""
+            cols = []
+            for p, g in enumerate(geno):
+                alleles = sorted(a for a, c in g.items() for _ in range(c))
+                perm = e.perm("%s_arr_%d" % (tag, p), ploidy) if ploidy <= 3 else ([0, 1, 2, 3] if not e.bit("%s_rev_%d" % (tag, p)) else [3, 2, 1, 0])
+                cols.append([alleles[perm[h]] for h in range(ploidy)])
+            return [[cols[p][h] for p in range(len(geno))] for h in range(ploidy)]
+
+        def run_threading(am, clustering, ploidy, geno, distrust_genotypes=False):
+            tag = "L%d" % level[0]
+            calls.append((level[0], bool(distrust_genotypes)))
+            n = am.getNumPositions()
+            if distrust_genotypes:
+                haps = [[e.bit("%s_free_%d_%d" % (tag, h, p)) for p in range(n)] for h in range(ploidy)]
+            else:
+                haps = conforming(tag, geno, ploidy)
+            return [[0] * ploidy for _ in range(n)], haps
+
+        def find_subinstances(am, clustering, threads, haplotypes):
+            if level[0] > 0 or not use_sub:
+                return []
+            level[0] += 1
+            return [(0, [P - 2, P - 1], Matrix(am.getPositions()[:2]))]
+
+        class CE:
+            def __init__(s, sim, bundle):
+                pass
+
+            def run(s):
+                return [[0, 1, 2, 3]]
+
+        saved = {k: alg.__dict__.get(k) for k in ("scoreReadset", "ClusterEditingSolver", "run_threading", "find_subinstances", "run_reordering", "compute_block_starts")}
+        alg.scoreReadset = lambda am, mo, pl, err: [0]
+        alg.ClusterEditingSolver = CE
+        alg.run_threading = run_threading
+        alg.find_subinstances = find_subinstances
+        alg.run_reordering = lambda *a, **k: None
+        alg.compute_block_starts = lambda am, pl, single_linkage=False: [0]
+
+        class Timers:
+            def start(s, n):
+                pass
+
+            def stop(s, n):
+                pass
+
+        try:
+            param = pp.PolyphaseParameter(ploidy=P, ce_bundle_edges=False, distrust_genotypes=False, min_overlap=2, block_cut_sensitivity=4, plot_clusters=False, plot_threading=False, threads=1, use_prephasing=False)
+            res = alg.phase_single_block(0, Matrix(range(N)), genotypes, None, param, Timers(), quiet=True)
+        finally:
+            for k, v in saved.items():
+                alg.__dict__[k] = v
+        haps = [list(h) for h in res.haplotypes]
+        e.out("haplotypes", haps)
+        e.out("threading_calls", calls)
+        if use_sub and len(calls) >= 2:
+            e.cover("sub-instance result differs from the threaded haplotypes")
+        info = lambda: dict(ploidy=P, genotypes=genotypes, collapsed_cluster=use_sub, haplotypes=e.value(haps), threading_calls=calls)
+        for p in range(N):
+            col = [haps[h][p] for h in range(P)]
+            if -1 in col:
+                continue
+            e.check(sorted(col) == sorted(a for a, c in genotypes[p].items() for _ in range(c)),
+                    "the phased block does not list the alleles of the input genotype with their multiplicities (position re-solved in a sub-instance: %s)" % (use_sub and p < 2), lambda p=p: dict(info(), position=p))
+
+    def classify(self, shape, v):
+        return "phase_block:%s" % v["msg"][:80]
+
+
+SUBCHECKS["phase_block"] = PhaseBlock()
